@@ -8,5 +8,7 @@ CONSTANTS
   HNodeCounts = {2}
   HLens = {2}
   HOutcomes = {}
+  HConfSets = {}
+  HVecOuts = {}
 INVARIANTS Emit
 CHECK_DEADLOCK FALSE
